@@ -26,7 +26,10 @@ func vfPeerCacheRun(sc vfScript) []map[string]any {
 	ops, _ := sc.Cfg["ops"].([]any)
 	waitersAny, _ := sc.Cfg["waiters"].([]any)
 	calls, _ := vfNum(sc.Cfg, "calls")
-	withCancel, _ := vfBool(sc.Cfg, "cancel")
+	cancelWho, _ := sc.Cfg["cancel"].(string)
+	withCancel := cancelWho != "" && cancelWho != "none"
+	var cancels []context.CancelFunc
+	ctargets := []string{}
 	const topic = "topic"
 	pid := peer.ID("p1")
 	var addrs []ma.Multiaddr
@@ -59,9 +62,15 @@ func vfPeerCacheRun(sc vfScript) []map[string]any {
 		w := w
 		cur := PeersUpdate{}
 		curs[w] = cur
+		wctx, wcancel := context.WithCancel(ctx)
+		defer wcancel()
+		if cancelWho == "all" || cancelWho == w {
+			cancels = append(cancels, wcancel)
+			ctargets = append(ctargets, w)
+		}
 		c.Spawn(w, func() {
 			for i := 0; i < calls; i++ {
-				upd, ok := pc.WaitForPeerUpdate(ctx, topic, cur)
+				upd, ok := pc.WaitForPeerUpdate(wctx, topic, cur)
 				rets = append(rets, ret{w, ok, len(upd)})
 				if !ok {
 					return
@@ -72,7 +81,9 @@ func vfPeerCacheRun(sc vfScript) []map[string]any {
 	if withCancel {
 		c.Spawn("cancel", func() {
 			verifsched.Point("c_cancel")
-			cancel()
+			for _, f := range cancels {
+				f()
+			}
 		})
 	}
 	scen, _ := vfNum(sc.Cfg, "scen")
@@ -101,7 +112,7 @@ func vfPeerCacheRun(sc vfScript) []map[string]any {
 		ev["ret"] = rl
 	}
 	emit := func(r verifsched.Rec, ok bool) {
-		ev := map[string]any{"ev": "step", "t": r.Thread, "from": r.From, "to": r.To, "p": r.Progress, "ok": ok}
+		ev := map[string]any{"ev": "step", "t": r.Thread, "from": r.From, "to": r.To, "p": r.Progress, "ok": ok, "ctargets": ctargets}
 		snap(ev)
 		out = append(out, ev)
 	}
